@@ -48,7 +48,9 @@ pub async fn startup(config: &ServerConfig<SslConfig>) -> anyhow::Result<()> {
                 user_manager.add_user(ServerUser::try_from(user).map_err(|e| anyhow!(e))?);
             }
             let user_manager = Arc::new(user_manager);
-            tokio::join!(startup_udp::<16>(config, &user_manager), startup_tcp::<16>(config, &user_manager))
+            // one context, and with it one salt replay cache, for every stream listener (tcp and quic) of this server
+            let context = ServerContext::init(config, user_manager.clone())?;
+            tokio::join!(startup_udp::<16>(config, &user_manager, &context), startup_tcp::<16>(config, &context))
         }
         CipherKind::Aes256Gcm
         | CipherKind::Aead2022Blake3Aes256Gcm
@@ -60,7 +62,9 @@ pub async fn startup(config: &ServerConfig<SslConfig>) -> anyhow::Result<()> {
                 user_manager.add_user(ServerUser::try_from(user).map_err(|e| anyhow!(e))?);
             }
             let user_manager = Arc::new(user_manager);
-            tokio::join!(startup_udp::<32>(config, &user_manager), startup_tcp::<32>(config, &user_manager))
+            // one context, and with it one salt replay cache, for every stream listener (tcp and quic) of this server
+            let context = ServerContext::init(config, user_manager.clone())?;
+            tokio::join!(startup_udp::<32>(config, &user_manager, &context), startup_tcp::<32>(config, &context))
         }
         CipherKind::Unknown => bail!("unknown cipher kind"),
     };
@@ -72,15 +76,18 @@ pub async fn startup(config: &ServerConfig<SslConfig>) -> anyhow::Result<()> {
     }
 }
 
-async fn startup_tcp<const N: usize>(config: &ServerConfig<SslConfig>, user_manager: &Arc<ServerUserManager<N>>) -> anyhow::Result<()> {
+async fn startup_tcp<const N: usize>(config: &ServerConfig<SslConfig>, context: &ServerContext<N>) -> anyhow::Result<()> {
     if !config.mode.enable_tcp() {
         return Ok(());
     }
-    let context: ServerContext<N> = ServerContext::init(config, user_manager.clone())?;
-    super::startup_tcp(context, config, |c| Ok(PayloadCodec::from(c))).await
+    super::startup_tcp(context.clone(), config, |c| Ok(PayloadCodec::from(c))).await
 }
 
-async fn startup_udp<const N: usize>(config: &ServerConfig<SslConfig>, user_manager: &Arc<ServerUserManager<N>>) -> anyhow::Result<()> {
+async fn startup_udp<const N: usize>(
+    config: &ServerConfig<SslConfig>,
+    user_manager: &Arc<ServerUserManager<N>>,
+    context: &ServerContext<N>,
+) -> anyhow::Result<()> {
     if !config.mode.enable_udp() && !config.mode.enable_quic() {
         return Ok(());
     }
@@ -161,8 +168,7 @@ async fn startup_udp<const N: usize>(config: &ServerConfig<SslConfig>, user_mana
         info!("Udp server shutdown");
         Ok(())
     } else {
-        let context: ServerContext<N> = ServerContext::init(config, user_manager.clone())?;
-        super::startup_quic(context, config, |c| Ok(PayloadCodec::from(c))).await
+        super::startup_quic(context.clone(), config, |c| Ok(PayloadCodec::from(c))).await
     }
 }
 
